@@ -10,18 +10,20 @@ from .common import AT4_API, AT5_API, SOCKET, fn_of
 
 LEVEL = "other"
 EXPLANATION = (
-    "Static analysis of the handshake state machine of both generations (extraction of the match statement of _message_received into a transition"
-    " table: pattern classes, guard state, extra guard atoms, next state, requests sent, calls): R1 following the table from CONNECTING yields "
-    "exactly six steps whose requests and awaited responses are version, names, AC ability, AC status, timer status, zone/group status in that "
-    "order, one request per step with the wrapper its registry requires, ending in the steady state with the initialised event set; R2 every case"
-    " that changes state or sends is guarded by a state equality and is not shadowed by an earlier case; R3 the AT5 zero-zone echo cases require "
-    "to_address == 0xB0 and the right state and advance exactly like their normal siblings; R4 init() awaits the event for 5.0 s under "
-    "TimeoutError suppression and returns event.is_set(), nothing else is awaited before that wait except open_socket(), which itself never "
-    "awaits (a hanging TCP connect cannot outlast the 5 s); R5 model construction: one zone per names entry, one AC per ability record, AT4 "
-    "association by bitmap, then single-AC-gets-all, then range(start, start+count); AT5 range(start, start+count)."
+    'Static analysis of the handshake state machine of both generations (extraction of the match statement of _message_received into a transition table: '
+    'pattern classes, guard state, extra guard atoms, next state, requests sent, calls): R1 following the table from CONNECTING yields exactly six steps '
+    'whose requests and awaited responses are version, names, AC ability, AC status, timer status, zone/group status in that order, one request per step '
+    'with the wrapper its registry requires, ending in the steady state with the initialised event set; R2 every case that changes state or sends is '
+    'guarded by a state equality and is not shadowed by an earlier case; R3 the AT5 zero-zone echo cases require to_address == 0xB0 and the right state and '
+    'advance exactly like their normal siblings; R4 init() awaits the event for 5.0 s under TimeoutError suppression and returns event.is_set(), nothing '
+    'else is awaited before that wait except open_socket(), which itself never awaits (a hanging TCP connect cannot outlast the 5 s); R5 model '
+    'construction: one zone per names entry, one AC per ability record, AT4 association decided per guarded path reaching the AC construction (locals '
+    'substituted; by the set of conditions on the path, not their nesting): groups bitmap when present, else all zones when there is one AC, else '
+    'range(start, start+count); AT5 range(start, start+count). R6 the ability records the model is built from are decoded as the vendor table says (C05.R1 '
+    'ability-decoder instances re-evaluated).'
 )
 ASSUMPTIONS = ["the socket delivers frames to _message_received one at a time (C07/C13)", "match statement first-match semantics"]
-FLOORS = {"C09.R1": 30, "C09.R2": 20, "C09.R3": 6, "C09.R4": 8, "C09.R5": 10}
+FLOORS = {"C09.R1": 30, "C09.R2": 20, "C09.R3": 6, "C09.R4": 8, "C09.R5": 10, "C09.R6": 1}
 
 GEN = {
     AT4_API: dict(cls="AirTouch4", names_req="GroupNamesRequest", names_msg="GroupNamesMessage", zstat_req="GroupStatusRequest", zstat_msg="GroupStatusMessage", c0_wrap=None, zone_cls="At4Zone", ac_cls="At4AirConditioner", hdr="pyairtouch.at4.comms.hdr"),
